@@ -16,8 +16,10 @@
 /* The serialized seed. The contents are platform-independent. */
 typedef uint8_t polyseed_storage[POLYSEED_SIZE];
 
-/* The maximum possible length of a mnemonic phrase */
-#define POLYSEED_STR_SIZE 360
+/* The maximum possible length of a mnemonic phrase in bytes, in composed or
+   decomposed (NFKD) form, including the terminator:
+   16 words * 33 bytes (longest decomposed Korean word) + 15 * 3 + 1 */
+#define POLYSEED_STR_SIZE 576
 
 /* Mnemonic phrase buffer */
 typedef char polyseed_str[POLYSEED_STR_SIZE];
